@@ -44,10 +44,10 @@ CHECKS = {
  'C13': ('executable store/reply model vs build_reply (hook) over a bounded-exhaustive universe of colliding names plus random histories, and the same judgement on the reply datagrams of real sync/tokio responders on loopback multicast (sampled); thorough adds Miri and coverage-guided libFuzzer+ASan tapes through the same oracle',
          'Bounded-exhaustive: all stores of <= 3 (quick) / <= 4 (thorough) records over 6 colliding owner names x {A,TXT,SRV} x {authoritative,cached} x all 2352 queries of <= 2 questions; plus tens of thousands of random add/remove/clear histories with 9 record types, 2 classes, ANY/MAILB.',
          'Model reads the statement in its weaker sense where it is ambiguous (subdomain matches allowed, exact-name matches required).'),
- 'C14': ('global panic hook + RwLock poison probe + reply re-parse over the re-enacted handler pipelines (all inputs) and the real sync/tokio services on loopback multicast with marker queries (sampled); thorough adds valgrind memcheck on the real services and a coverage-guided libFuzzer+ASan target over the handling pipelines',
+ 'C14': ('global panic hook + RwLock poison probe + reply re-parse over the re-enacted handler pipelines (all inputs) and the real sync/tokio services on loopback multicast, IPv4 and IPv6, with marker queries, a lock-discipline monitor (hook) and a tokio-runtime heartbeat monitor (sampled); thorough adds valgrind memcheck on the real services and a coverage-guided libFuzzer+ASan target over the handling pipelines',
          'Exploration: ~3*10^5 (quick) datagrams through the three pipelines against a store shared with an application thread; 2400 (quick) / 50000 (thorough) datagrams through the real SimpleMdnsResponder, ServiceDiscovery and OneShotMdnsResolver loops (sync and tokio), each batch followed by marker queries, then lock-health probes through the public API.',
          'Level 1 re-enacts private loop bodies; level 2 needs loopback multicast (skipped and said so otherwise); missing marker replies without a panic are inconclusive.'),
- 'C15': ('announce -> compressed wire -> parse -> real ingest function (hook) -> store -> from_records, compared with the announced descriptions; channel values; bounded-exhaustive escape/unescape; thorough adds coverage-guided libFuzzer+ASan tapes that drive the generators through the same oracle',
+ 'C15': ('announce -> compressed wire -> parse -> real ingest function (hook) -> store -> from_records, compared with the announced descriptions; channel values; live pairs of real services over IPv4 (with a passive witness socket) and IPv6; bounded-exhaustive escape/unescape; thorough adds coverage-guided libFuzzer+ASan tapes that drive the generators through the same oracle',
          'Exploration over thousands of multi-peer histories in three modes (sync without/with channel, tokio) with foreign-traffic interleaving; escape/unescape exhaustive over a 5-symbol alphabet up to length 7/8.',
          'Domain limits of DESIGN.md C15.'),
  'C16': ('owned-copy observer after the receive buffer is overwritten and dropped; fixed-key hash comparison of equal values built through different routes; Miri in thorough',
